@@ -49,6 +49,9 @@ def run_programs(ctx, programs, what, sigfn=default_sig, nontrivial=None, batch=
             if e['op'] == 'Lit':
                 regvals[e['z']] = ('n', e['a']) if e['k'] == 'n' else ('u', e['u'])
                 continue
+            if e['op'] == 'Snap':
+                ctx.evaluations += 1
+                continue
             key = {k: e[k] for k in e if k not in ('id', 'res', 'z', 'x', 'y', 'rs', 'ps', 'rem', 'shape')}
             key['operands'] = [regvals.get(e.get('x')), regvals.get(e.get('y'))] + \
                 [regvals.get(r) for r in e.get('rs', [])]
@@ -61,10 +64,10 @@ def run_programs(ctx, programs, what, sigfn=default_sig, nontrivial=None, batch=
     for el in evs[:3]:
         ctx.sample(dict(program=el[0]['id'], events=[_brief(e) for e in el[1:6]]))
     for eid, verdict, exp in v.deviations:
-        pid, idx = eid.rsplit(':', 1)
+        pid, idx = (eid[:-5] if eid.endswith(':snap') else eid).rsplit(':', 1)
         prog = dict(byid[pid])
         prog['ops'] = prog['ops'][:int(idx) + 1]
-        ev = evmap[pid][int(idx) + 1]
+        ev = [e for e in evmap[pid] if e['id'] == eid][0]
         ctx.deviation(sigfn(prog, ev),
                       '%s: program %s step %s %s observed %s, specification expects %s' % (
                           what, pid, idx, _brief(ev), _brief_val(ev.get('res')), _brief_val(exp)),
